@@ -105,6 +105,9 @@ def part_tcr(facts, res, fields, fi):
             cks = tcr[0:3]
             for o in outs:
                 st = o.state
+                if o.kind == "panic" and any(t in st.tags for t in ("opaque-switch", "opaque-assert", "unknown-callee", "unwrap-opaque")):
+                    res.errors.append("imprecise trace in the timer analysis (panic branch): %r" % (st.tags,))
+                    continue
                 care = Mx.AND(st.pc, pre)
                 if care == 0:
                     continue
@@ -114,6 +117,7 @@ def part_tcr(facts, res, fields, fi):
                     continue
                 if any(t in st.tags for t in ("opaque-switch", "opaque-assert", "unknown-callee")):
                     res.errors.append("imprecise trace in update_tcr: %r" % (st.tags,))
+                    continue     # an imprecisely followed trace decides nothing
                 t = st.mem[TIMER_ROOT]
                 res.evaluations += 1
                 for fld, bit, what in (("is_allowed_cmib", 7, "CMIEB (bit 7)"), ("is_allowed_cmia", 6, "CMIEA (bit 6)"), ("is_allowed_ovi", 5, "OVIE (bit 5)")):
@@ -233,6 +237,9 @@ def part_timer(facts, res, fields, fi):
                     st = o.state
                     if Mx.AND(st.pc, pre) == 0:
                         continue
+                    if any(t in st.tags for t in ("opaque-switch", "opaque-assert", "unknown-callee", "unwrap-opaque")):
+                        res.errors.append("imprecise trace in the timer analysis (stopped clock): %r" % (st.tags,))
+                        continue
                     if o.kind == "panic":
                         res.ob(False)
                         res.finding("count|panic|%s" % o.info.get("kind"), "with no clock selected the timer update can panic (%s, line %s)" % (o.info.get("kind"), o.info.get("line")), witness(Mx.AND(st.pc, pre)))
@@ -286,6 +293,9 @@ def part_timer(facts, res, fields, fi):
             seen_tick = 0
             for o in outs:
                 st = o.state
+                if o.kind == "panic" and any(t in st.tags for t in ("opaque-switch", "opaque-assert", "unknown-callee", "unwrap-opaque")):
+                    res.errors.append("imprecise trace in the timer analysis (panic branch): %r" % (st.tags,))
+                    continue
                 if st.ctr.get(("visit", header), 0) == 0:
                     continue
                 care = Mx.AND(Mx.AND(st.pc, pre), open_case)
@@ -297,6 +307,7 @@ def part_timer(facts, res, fields, fi):
                     continue
                 if any(t in st.tags for t in ("opaque-assert", "unknown-callee")):
                     res.errors.append("imprecise trace in the tick loop: %r" % (st.tags,))
+                    continue     # an imprecisely followed trace decides nothing
                 ca = [e for e in st.eff if e[0] == "count_after"]
                 if not ca:
                     # the loop was left: only when the remaining count is zero
@@ -389,8 +400,13 @@ def run(ctx, res):
     res.inventory["prescaler_writers"] = sorted(writers)
     okk = vals <= set(DIVISORS)
     res.ob(okk)
-    if not okk:
-        res.finding("field|prescaler-values", "the divisor field can hold values other than 0/8/64/8192: %r" % sorted(str(v) for v in vals))
+    wrong = sorted(v for v in vals if v is not None and v not in DIVISORS)
+    if wrong:
+        res.finding("field|prescaler-values", "the divisor field is assigned the constant(s) %r, not one of 0/8/64/8192" % wrong)
+    elif not okk:
+        # a computed / looked-up divisor: its value set is not followed by this syntactic rule; the TCR analysis below decides the
+        # divisor per clock selection, so only note it when that analysis cannot
+        res.inventory["prescaler_computed"] = True
     part_tcr(facts, res, fields, fi)
     part_timer(facts, res, fields, fi)
     # (4) re-entrancy
